@@ -3,6 +3,7 @@ package oxc
 import (
 	"context"
 	"fmt"
+	"os"
 	"sort"
 	"strings"
 	"time"
@@ -99,12 +100,18 @@ func Body(spec ScenarioSpec, mk func() []Oracle) func(s *vsched.Sched) {
 			cl := cl
 			vsched.Go(func() { clientLoop(c, s, obs, spec, cl) })
 		}
+		faultDone := false
 		if spec.Fault != "none" {
-			vsched.Go(func() { faultThread(c, s, spec) })
+			vsched.Go(func() { faultThread(c, s, spec); faultDone = true })
 		}
 		s.Settle()
 		// let timers (retries, backoffs, grace periods) play out, still exploring
 		for i := 0; i < 6; i++ {
+			s.Sleep(2 * time.Second)
+			s.Settle()
+		}
+		// a scripted fault that spans RPC timeouts takes longer than that
+		for i := 0; i < 150 && spec.Fault == "failed-become-leader" && !faultDone; i++ {
 			s.Sleep(2 * time.Second)
 			s.Settle()
 		}
@@ -310,6 +317,128 @@ func rollingIsolation(c *Cluster, s *vsched.Sched, obs *Obs, rounds int) {
 	}
 }
 
+// failedBecomeLeader: a leader with an uncommitted tail is re-elected (it has the best log
+// among the fenced nodes) but cannot reach a quorum, so BecomeLeader times out; another node
+// then leads, overwrites that tail with an acknowledged write, and the first node comes back
+// as a follower.
+func failedBecomeLeader(c *Cluster, s *vsched.Sched, obs *Obs) {
+	l, _ := c.LeaderByStatus()
+	if l == "" || c.SC == nil {
+		return
+	}
+	var others []string
+	for _, n := range []string{"n1", "n2", "n3"} {
+		if n != l {
+			others = append(others, n)
+		}
+	}
+	// a committed entry first: a leader elected on an empty log refuses every follower
+	// that has an entry ("follower term > election head term"), which is an availability
+	// corner outside the properties
+	op0 := &ClientOp{Client: 1, Kind: "put", Key: "k0", Value: "base", Invoke: s.Steps(), Node: l}
+	obs.Ops = append(obs.Ops, op0)
+	if resp, err := c.Write(l, put(op0.Key, op0.Value)); err == nil && resp.Puts[0].Status == proto.Status_OK {
+		op0.OK, op0.Version, op0.Status = true, resp.Puts[0].Version.VersionId, "OK"
+	} else {
+		op0.Unknown = true
+	}
+	op0.Return = s.Steps()
+	s.Sleep(200 * time.Millisecond)
+	c.CutReplicationFrom(l)
+	vsched.Go(func() {
+		op := &ClientOp{Client: 100, Kind: "put", Key: "kk", Value: "never-committed", Invoke: s.Steps(), Node: l, Unknown: true}
+		obs.Ops = append(obs.Ops, op)
+		resp, err := c.Write(l, put(op.Key, op.Value))
+		op.Return = s.Steps()
+		if err == nil && resp.Puts[0].Status == proto.Status_OK {
+			op.Unknown, op.OK, op.Version = false, true, resp.Puts[0].Version.VersionId
+		}
+	})
+	s.Sleep(200 * time.Millisecond)
+	// the coordinator is told the leader failed, but can only reach the old leader and one follower
+	c.CoordCut[others[0]] = true
+	c.SC.NodeBecameUnavailable(c.Nodes[l].Addr)
+	failed := false
+	for i := 0; i < 100 && !failed; i++ {
+		s.Sleep(time.Second)
+		for _, e := range c.Events {
+			if e.Kind == "resp:BecomeLeader" && e.Node == l && e.Err != "" {
+				failed = true
+			}
+		}
+	}
+	dbg("failed-become-leader: leader=%s failed=%v", l, failed)
+	if !failed {
+		return
+	}
+	// now the old leader is out of reach and the other follower is back
+	c.CoordCut[l] = true
+	delete(c.CoordCut, others[0])
+	nl := ""
+	for i := 0; i < 60 && nl == ""; i++ {
+		s.Sleep(time.Second)
+		md, ok := c.StoredMetadata()
+		if ok && md.Leader != nil && md.Leader.Internal != l && md.Status == model.ShardStatusSteadyState {
+			if x, _ := c.LeaderByStatusExcept(l); x == md.Leader.Internal {
+				nl = x
+			}
+		}
+	}
+	dbg("failed-become-leader: new leader=%q", nl)
+	if nl == "" {
+		return
+	}
+	op := &ClientOp{Client: 1, Kind: "put", Key: "kk", Value: "acked", Invoke: s.Steps(), Node: nl}
+	obs.Ops = append(obs.Ops, op)
+	resp, err := c.Write(nl, put(op.Key, op.Value))
+	op.Return = s.Steps()
+	if err != nil {
+		op.Unknown, op.Err = true, err.Error()
+	} else if resp.Puts[0].Status == proto.Status_OK {
+		op.OK, op.Version, op.Status = true, resp.Puts[0].Version.VersionId, "OK"
+	}
+	dbg("failed-become-leader: acked write: %+v err=%v", op, err)
+	c.Heal(l)
+	s.Sleep(5 * time.Second)
+	// one more acknowledged write so that the followers learn the commit offset
+	op2 := &ClientOp{Client: 1, Kind: "put", Key: "k2", Value: "acked2", Invoke: s.Steps(), Node: nl}
+	obs.Ops = append(obs.Ops, op2)
+	if resp, err := c.Write(nl, put(op2.Key, op2.Value)); err == nil && resp.Puts[0].Status == proto.Status_OK {
+		op2.OK, op2.Version, op2.Status = true, resp.Puts[0].Version.VersionId, "OK"
+	} else {
+		op2.Unknown = true
+	}
+	op2.Return = s.Steps()
+	s.Sleep(2 * time.Second)
+	// finally the node whose election failed gets a chance to lead, and serves reads
+	for round := 0; round < 2; round++ {
+		cur, _ := c.LeaderByStatus()
+		if cur == "" || cur == l {
+			break
+		}
+		c.Isolate(cur)
+		c.SC.NodeBecameUnavailable(c.Nodes[cur].Addr)
+		for i := 0; i < 60; i++ {
+			s.Sleep(time.Second)
+			if x, _ := c.LeaderByStatusExcept(cur); x != "" {
+				break
+			}
+		}
+		c.Heal(cur)
+		s.Sleep(5 * time.Second)
+	}
+	dbg("failed-become-leader: final leader %v", func() string { x, _ := c.LeaderByStatus(); return x }())
+	doRead(c, s, obs, 1, "kk")
+	doRead(c, s, obs, 1, "k0")
+	doRead(c, s, obs, 1, "k2")
+}
+
+func dbg(f string, a ...any) {
+	if debugEvents {
+		fmt.Fprintf(os.Stderr, "DBG "+f+"\n", a...)
+	}
+}
+
 func faultThread(c *Cluster, s *vsched.Sched, spec ScenarioSpec) {
 	switch spec.Fault {
 	case "leader-crash", "leader-crash-restart":
@@ -361,6 +490,8 @@ func faultThread(c *Cluster, s *vsched.Sched, spec ScenarioSpec) {
 			}
 			_ = c.SC.SwapNode(c.Nodes[from].Addr, c.Nodes["n4"].Addr)
 		}
+	case "failed-become-leader":
+		failedBecomeLeader(c, s, specObs)
 	case "client-cancel":
 		// client 0 gives up on its first write at some point
 		cancelFn()
